@@ -48,7 +48,7 @@ def run(ctx):
         if cls == "Packetizer":
             # the final beat is emitted from the stored `last` with sink.ready low: the accepted-beat load cannot clear it
             cl = [a for a in fx.find(domain="sync", target="sink_d.last") if a.v == "0"]
-            ok = len(cl) == 1 and B.equivalent(cl[0].eff(), B.from_expr("self.source.valid & self.source.ready & self.source.last"))
+            ok = len(cl) == 1 and q.EQ(cl[0], B.from_expr("self.source.valid & self.source.ready & self.source.last"))
             ctx.ob("P4", PACKET, cls, "stored last flag cleared when the packet's last beat is handed over", ok,
                    "" if ok else f"{[(a.v, a.gtext()) for a in cl]}: the next packet starts with last already set (terminated on its first "
                                  f"data beat, its word never accepted)", cl[0].line if cl else 0)
